@@ -419,6 +419,36 @@ def direct_probes(prop, rep):
              lambda: heapq.merge(U[:2], U[2:], key=lambda u: [i for i, v in enumerate(U) if v is u][0])),
         ]:
             both("untouchable items: " + name, "items-inspected:" + name.split()[0], lambda fa=fa: ids(G.drive(alist(fa()))), lambda fs=fs: ids(list(fs())))
+        # inputs that are iterable only through the sequence protocol (__getitem__ from 0 until IndexError)
+        class Seq:
+            def __init__(self, items):
+                self._items = list(items)
+
+            def __getitem__(self, i):
+                return self._items[i]
+        S1, S2 = [3, 1, 2], [9, 8]
+        for name, fa, fs in [
+            ("zip", lambda: a.zip(Seq(S1), Seq(S2)), lambda: zip(Seq(S1), Seq(S2))),
+            ("map", lambda: a.map(lambda x, y: x + y, Seq(S1), Seq(S2)), lambda: map(lambda x, y: x + y, Seq(S1), Seq(S2))),
+            ("enumerate", lambda: a.enumerate(Seq(S1)), lambda: enumerate(Seq(S1))),
+            ("filter", lambda: a.filter(None, Seq(S1)), lambda: filter(None, Seq(S1))),
+            ("chain", lambda: a.chain(Seq(S1), Seq(S2)), lambda: itertools.chain(Seq(S1), Seq(S2))),
+            ("chain.from_iterable", lambda: a.chain.from_iterable(Seq([Seq(S1), Seq(S2)])), lambda: itertools.chain.from_iterable(Seq([Seq(S1), Seq(S2)]))),
+            ("islice", lambda: a.islice(Seq(S1), 1, None), lambda: itertools.islice(Seq(S1), 1, None)),
+            ("pairwise", lambda: a.pairwise(Seq(S1)), lambda: itertools.pairwise(Seq(S1))),
+            ("zip_longest", lambda: a.zip_longest(Seq(S1), Seq(S2)), lambda: itertools.zip_longest(Seq(S1), Seq(S2))),
+            ("accumulate", lambda: a.accumulate(Seq(S1)), lambda: itertools.accumulate(Seq(S1))),
+            ("batched", lambda: a.batched(Seq(S1), 2), lambda: itertools.batched(Seq(S1), 2)),
+            ("takewhile", lambda: a.takewhile(lambda x: x > 2, Seq(S1)), lambda: itertools.takewhile(lambda x: x > 2, Seq(S1))),
+            ("dropwhile", lambda: a.dropwhile(lambda x: x > 2, Seq(S1)), lambda: itertools.dropwhile(lambda x: x > 2, Seq(S1))),
+            ("compress", lambda: a.compress(Seq(S1), Seq([1, 0, 1])), lambda: itertools.compress(Seq(S1), Seq([1, 0, 1]))),
+            ("starmap", lambda: a.starmap(lambda x, y: x * y, Seq([(1, 2), (3, 4)])), lambda: itertools.starmap(lambda x, y: x * y, Seq([(1, 2), (3, 4)]))),
+            ("cycle", lambda: a.islice(a.cycle(Seq(S2)), 5), lambda: itertools.islice(itertools.cycle(Seq(S2)), 5)),
+            ("tee", lambda: a.tee(Seq(S1), 2)[0], lambda: itertools.tee(Seq(S1), 2)[0]),
+            ("merge", lambda: a.merge(Seq([1, 4]), Seq([2, 3])), lambda: heapq.merge(Seq([1, 4]), Seq([2, 3]))),
+            ("groupby", lambda: a.map(lambda kg: kg[0], a.groupby(Seq([1, 1, 2]))), lambda: map(lambda kg: kg[0], itertools.groupby(Seq([1, 1, 2])))),
+        ]:
+            both("sequence-protocol input: " + name, "getitem-input:" + name, lambda fa=fa: G.drive(alist(fa())), lambda fs=fs: list(fs()))
         both("anext default", "anext:default", lambda: G.drive(a.anext(a.iter([]), "d")), lambda: next(iter([]), "d"))
         both("anext", "anext:default", lambda: G.drive(a.anext(a.iter([4]))), lambda: next(iter([4])))
         both("anext exhausted", "anext:default", lambda: G.drive(a.anext(a.iter([]))), lambda: _stop_as_async(lambda: next(iter([]))))
@@ -484,6 +514,27 @@ def direct_probes(prop, rep):
                 both("max key raises %s at call %d" % (exc.__name__, n), "callable-stop:max", lambda: G.drive(a.max([1, 2, 3], key=stopper(n))), lambda: builtins.max([1, 2, 3], key=stopper(n)))
                 both("sorted key raises %s at call %d" % (exc.__name__, n), "callable-stop:sorted", lambda: G.drive(a.sorted([1, 2, 3], key=stopper(n))), lambda: builtins.sorted([1, 2, 3], key=stopper(n)))
                 both("nlargest key raises %s at call %d" % (exc.__name__, n), "callable-stop:nlargest", lambda: G.drive(a.nlargest([1, 2, 3], 2, key=stopper(n))), lambda: __import__("heapq").nlargest(2, [1, 2, 3], key=stopper(n)))
+        class Seq:          # iterable only through __getitem__
+            def __init__(self, items):
+                self._items = list(items)
+
+            def __getitem__(self, i):
+                return self._items[i]
+        import functools as _ft
+        import heapq as _hq
+        for name, fa, fs in [
+            ("min", lambda: a.min(Seq(data)), lambda: builtins.min(Seq(data))), ("max", lambda: a.max(Seq(data)), lambda: builtins.max(Seq(data))),
+            ("sum", lambda: a.sum(Seq(data), 2), lambda: builtins.sum(Seq(data), 2)), ("list", lambda: a.list(Seq(data)), lambda: builtins.list(Seq(data))),
+            ("tuple", lambda: a.tuple(Seq(data)), lambda: builtins.tuple(Seq(data))), ("set", lambda: a.set(Seq(data)), lambda: builtins.set(Seq(data))),
+            ("dict", lambda: a.dict(Seq([(1, 2), (3, 4)])), lambda: builtins.dict(Seq([(1, 2), (3, 4)]))),
+            ("sorted", lambda: a.sorted(Seq(data)), lambda: builtins.sorted(Seq(data))),
+            ("sorted key", lambda: a.sorted(Seq(data), key=lambda x: -x), lambda: builtins.sorted(Seq(data), key=lambda x: -x)),
+            ("all", lambda: a.all(Seq(data)), lambda: builtins.all(Seq(data))), ("any", lambda: a.any(Seq([0, 0])), lambda: builtins.any(Seq([0, 0]))),
+            ("reduce", lambda: a.reduce(lambda x, y: x * 2 + y, Seq(data)), lambda: _ft.reduce(lambda x, y: x * 2 + y, Seq(data))),
+            ("nlargest", lambda: a.nlargest(Seq(data), 3), lambda: _hq.nlargest(3, Seq(data))),
+            ("nsmallest", lambda: a.nsmallest(Seq(data), 3), lambda: _hq.nsmallest(3, Seq(data))),
+        ]:
+            both("sequence-protocol input: " + name, "getitem-input:" + name.split()[0], lambda fa=fa: G.drive(fa()), lambda fs=fs: fs())
         both("min empty", "min:empty", lambda: G.drive(a.min([])), lambda: builtins.min([]))
 
 
@@ -720,6 +771,7 @@ def check_faults(prop, tier, seed):
         fails += check_c16.aspect_release(rep, rng, ng, cancel=False)
         fails += check_c16.aspect_release(rep, rng, ng // 2, cancel=True)
         fails += from_iterable_release(rep, rng, ng, cancel=False)
+        fails += equal_sources_release(rep)
     elif prop == "C18":
         fails += check_c16.aspect_release(rep, rng, ng, cancel=True)
         fails += from_iterable_release(rep, rng, ng // 2, cancel=True)
@@ -780,6 +832,69 @@ def from_iterable_release(rep, rng, n, cancel):
                 rep.violation("chain:from_iterable-release", {"inner": repr(inner_items), "take": take, "proxy_sources": proxy, "cancel_at_suspension": pos,
                                                               "why": "not released after the chain was closed: %r" % (leaked,)})
                 break
+    return fails
+
+
+def equal_sources_release(rep):
+    """C04, directed: distinct source iterators that compare *equal* to each other (value-like cursors with __eq__):
+    every one of them is an iterator of its own and must be released"""
+    import asyncstdlib as a
+
+    class Cursor:
+        def __init__(self, n):
+            self.n, self.pos, self.closed = n, 0, 0
+
+        def __eq__(self, other):
+            return isinstance(other, Cursor)
+
+        def __hash__(self):
+            return 7
+
+        def __aiter__(self):
+            return self
+
+        async def __anext__(self):
+            if self.closed or self.pos >= self.n:
+                raise StopAsyncIteration
+            self.pos += 1
+            return self.pos
+
+        async def aclose(self):
+            self.closed += 1
+    tools = {"zip": lambda s_: a.zip(*s_), "zip strict": lambda s_: a.zip(*s_, strict=True), "map": lambda s_: a.map(lambda *x: x, *s_),
+             "zip_longest": lambda s_: a.zip_longest(*s_), "merge": lambda s_: a.merge(*s_), "chain": lambda s_: a.chain(*s_),
+             "compress": lambda s_: a.compress(*s_[:2]), "chain.from_iterable": lambda s_: a.chain.from_iterable(s_)}
+    fails = 0
+    for name, mk in tools.items():
+        for k in (2, 3):
+            for take in (0, 1, 2):
+                srcs = [Cursor(3 + i) for i in range(k)]
+                it = mk(srcs)
+
+                async def go():
+                    for _ in range(take):
+                        try:
+                            await it.__anext__()
+                        except (StopAsyncIteration, ValueError):
+                            break
+                    await it.aclose()
+                try:
+                    G.drive(go())
+                    used = srcs[:2] if name == "compress" else srcs
+                    if name == "chain.from_iterable":
+                        owed = [c for c in used if c.pos or c.closed]       # only what was fetched from the list
+                    elif take or name == "chain":
+                        owed = used                                          # advanced (or a handle that owns its arguments)
+                    else:
+                        owed = []
+                    leaked = [i for i, c in enumerate(used) if builtins.any(c is o for o in owed) and not (c.closed or c.pos >= c.n)]
+                    why = "sources %r not closed (positions %r, closes %r)" % (leaked, [c.pos for c in used], [c.closed for c in used]) if leaked else None
+                except BaseException as e:  # noqa
+                    why = "failed: %r" % (e,)
+                rep.count(("equal-sources", name, k, take), True)
+                if why:
+                    fails += 1
+                    rep.violation("release:equal-sources", {"tool": name, "sources": k, "take": take, "why": why})
     return fails
 
 
